@@ -5,6 +5,8 @@ import (
 	"go/ast"
 	"go/token"
 	"go/types"
+	"sort"
+	"strings"
 )
 
 func init() {
@@ -386,13 +388,94 @@ func c09Run(r *Run) {
 			}
 		}
 	}
-	// other methods that read the flag
-	for name, fd := range methods {
+	// other methods: they may read the flag but must not operate on the channel
+	otherNames := []string{}
+	for name := range methods {
+		otherNames = append(otherNames, name)
+	}
+	sort.Strings(otherNames)
+	for _, name := range otherNames {
+		fd := methods[name]
 		if name == "Send" || name == "Receive" || name == "Close" {
 			continue
 		}
-		_, _, fa := analyse(fd)
+		_, ops, fa := analyse(fd)
 		allFlagAccess = append(allFlagAccess, fa...)
+		if name == "Construct" {
+			continue // (re)initialisation closes the previous channel
+		}
+		r.curRule = "C09-ONCE"
+		key := funcKey(pkg, fd) + "#no-channel-op"
+		if len(ops) == 0 {
+			r.ok(key, fd.Pos(), "performs no send, receive or close")
+		} else {
+			r.bad(key, ops[0].pos, fmt.Sprintf("%s performs a %s on the channel: a query consumes or injects a value behind the senders' and receivers' backs", name, ops[0].kind))
+		}
+	}
+	// script-facing method objects: the operation they are named after is performed on every
+	// path that does not fail on an uninitialised channel
+	r.curRule = "C09-CHECK"
+	wantOp := map[string]string{"send": "Send", "receive": "Receive", "close": "Close"}
+	for _, fd := range funcDecls(pkg) {
+		if fd.Name.Name != "GetName" || fd.Recv == nil || len(fd.Body.List) != 1 {
+			continue
+		}
+		rs, ok := fd.Body.List[0].(*ast.ReturnStmt)
+		if !ok || len(rs.Results) != 1 {
+			continue
+		}
+		tv, ok := info.Types[rs.Results[0]]
+		if !ok || tv.Value == nil {
+			continue
+		}
+		op, ok := wantOp[strings.Trim(tv.Value.ExactString(), "\"")]
+		if !ok {
+			continue
+		}
+		call := findFunc(pkg, recvTypeName(fd), "Call")
+		if call == nil {
+			continue
+		}
+		type st struct{ done, nilChan bool }
+		var early token.Pos
+		h := &Hooks{Info: info}
+		h.Copy = func(s State) State { c := *s.(*st); return &c }
+		h.Join = func(a, b State) State { x, y := a.(*st), b.(*st); return &st{x.done && y.done, x.nilChan && y.nilChan} }
+		h.Equal = func(a, b State) bool { return *a.(*st) == *b.(*st) }
+		h.Cond = func(e ast.Expr, truth bool, s State) State {
+			if be, ok := ast.Unparen(e).(*ast.BinaryExpr); ok && exprStr(be.Y) == "nil" && (be.Op == token.EQL) == truth {
+				s.(*st).nilChan = true
+			}
+			return s
+		}
+		h.Visit = func(e ast.Expr, s State) State {
+			if c, ok := e.(*ast.CallExpr); ok {
+				if cal, ok := calleeOf(info, c).(*types.Func); ok && cal.Name() == op && isMethod(cal, pkg.PkgPath, "Channel", op) {
+					s.(*st).done = true
+				}
+			}
+			return s
+		}
+		h.Return = func(rs *ast.ReturnStmt, s State) {
+			x := s.(*st)
+			if x.done || x.nilChan {
+				return
+			}
+			// returning an error control is a failure, not a skipped operation
+			if len(rs.Results) == 2 && exprStr(rs.Results[1]) != "nil" {
+				return
+			}
+			if early == token.NoPos {
+				early = rs.Pos()
+			}
+		}
+		WalkFunc(h, call.Body, &st{})
+		key := funcKey(pkg, call) + "#performs:" + op
+		if early == token.NoPos {
+			r.ok(key, call.Pos(), "every successful path of the script method performs Channel."+op)
+		} else {
+			r.bad(key, early, "the script-level method returns a result without having called Channel."+op+": e.g. a receive that answers null for a closed channel without draining what is buffered")
+		}
 	}
 	r.curRule = "C09-SYNC"
 	if fClosed == nil {
